@@ -133,7 +133,8 @@ class RankSim:
         self.corr = rng.choice([-1, 1, 5, 100, 278204204, 3000000000])    # -1: the first correlation id of the rank may be 0
         if cfg.corr_start is not None:
             self.corr = cfg.corr_start
-        self.zero_pending = cfg.corr_start == -1     # the first launch of the rank carries correlation id 0
+        self.zero_pending = cfg.corr_start == -1     # one of the first launches of the rank carries correlation id 0
+        self.zero_countdown = rng.choice([0, 0, 1, 2, 4, 7]) if self.zero_pending else 0
         if self.zero_pending:
             self.corr = 0                            # ... and nothing else does
         self.host_pid = 1000 + rank
@@ -196,7 +197,9 @@ class RankSim:
         d = self.dur()
         c = self.next_corr()
         if self.zero_pending:
-            c, self.zero_pending = 0, False
+            if self.zero_countdown <= 0:
+                c, self.zero_pending = 0, False
+            self.zero_countdown -= 1
         stream = rng.choice(streams)
         r = rng.random()
         if r < self.cfg.memcpy_rate * 0.6:
